@@ -87,29 +87,36 @@ Proof.
   rewrite read_token_erase. destruct (read_token tb s) as [s'|]; [apply IH|reflexivity].
 Qed.
 
-Definition erase_pops (r : option (option (list sitem)) * bool) : option (option (list sitem)) * bool :=
-  (match fst r with Some (Some st) => Some (Some (map erase_item st)) | x => x end, snd r).
+Definition erase_pops (r : pops) : pops :=
+  match r with
+  | PFound st e => PFound (map erase_item st) e
+  | r => r
+  end.
 
-Lemma recover_pops_erase fuel look : forall st,
-  recover_pops tb fuel (map erase_item st) look = erase_pops (recover_pops tb fuel st look).
+Lemma states_erase st : map i_state (map erase_item st) = map i_state st.
+Proof. rewrite map_map. reflexivity. Qed.
+
+Lemma recover_pops_erase fuel look : forall st e,
+  recover_pops tb fuel (map erase_item st) look e = erase_pops (recover_pops tb fuel st look e).
 Proof.
-  induction st as [|top st IH]; [reflexivity|].
-  cbn [map recover_pops]. change (i_state (erase_item top)) with (i_state top).
-  destruct (recover_sim tb fuel (i_state top) look); try reflexivity. exact IH.
+  induction st as [|top st IH]; intros e; [reflexivity|].
+  change (map erase_item (top :: st)) with (erase_item top :: map erase_item st).
+  cbn [recover_pops].
+  change (erase_item top :: map erase_item st) with (map erase_item (top :: st)).
+  rewrite states_erase. change (i_sym (erase_item top)) with (i_sym top).
+  destruct (recover_sim tb fuel (map i_state (top :: st)) look); try reflexivity. apply IH.
 Qed.
 
-Lemma recover_outer_erase f e : forall s,
+Lemma recover_outer_erase f : forall e s,
   recover_outer tb f e (erase_state s) = erase_outcome (recover_outer tb f e s).
 Proof.
-  induction f as [|f IH]; intros s; [reflexivity|]. cbn [recover_outer].
+  induction f as [|f IH]; intros e s; [reflexivity|]. cbn [recover_outer].
   change (stack (erase_state s)) with (map erase_item (stack s)).
   change (la (erase_state s)) with (la s).
   rewrite recover_pops_erase.
-  destruct (recover_pops tb (S f) (stack s) (la s)) as [[[st'|]|] [|]]; try reflexivity.
-  - unfold erase_pops. cbn [fst snd]. destruct (la s =? EOF); [reflexivity|].
-    rewrite read_token_erase. destruct (read_token tb s) as [s'|]; [apply IH|reflexivity].
-  - unfold erase_pops. cbn [fst snd]. destruct (la s =? EOF); [reflexivity|].
-    rewrite read_token_erase. destruct (read_token tb s) as [s'|]; [apply IH|reflexivity].
+  destruct (recover_pops tb (S f) (stack s) (la s) e) as [st' e'|e'| |]; try reflexivity.
+  cbn [erase_pops]. destruct (la s =? EOF); [reflexivity|].
+  rewrite read_token_erase. destruct (read_token tb s) as [s'|]; [apply IH|reflexivity].
 Qed.
 
 Lemma recover_erase f s : recover tb f (erase_state s) = erase_outcome (recover tb f s).
@@ -156,19 +163,28 @@ Proof.
   - intros H. inversion H; subst. exact Hi.
 Qed.
 
-Lemma recover_outer_inv f e : tokerr e -> forall s s', Inv s ->
+Lemma recover_pops_verr fuel look : forall st e, tokerr e ->
+  match recover_pops tb fuel st look e with
+  | PFound _ e' => tokerr e'
+  | PExhausted e' => tokerr e'
+  | _ => True
+  end.
+Proof.
+  induction st as [|top st IH]; intros e He; [exact He|]. cbn [recover_pops].
+  destruct (recover_sim tb fuel (map i_state (top :: st)) look); auto.
+  apply IH. destruct (i_sym top) eqn:Es; auto. exact I.
+Qed.
+
+Lemma recover_outer_inv f : forall e, tokerr e -> forall s s', Inv s ->
   recover_outer tb f e s = Continue s' -> Inv s'.
 Proof.
-  intros He. induction f as [|f IH]; intros s s' Hi; [discriminate|]. cbn [recover_outer].
-  destruct (recover_pops tb (S f) (stack s) (la s)) as [[[st'|]|] [|]]; try discriminate.
-  - intros H. inversion H; subst. split; cbn; [exact He|]. intros _. apply Hi.
-  - intros H. inversion H; subst. split; cbn; [exact He|]. intros _. apply Hi.
+  induction f as [|f IH]; intros e He s s' Hi; [discriminate|]. cbn [recover_outer].
+  pose proof (recover_pops_verr (S f) (la s) (stack s) e He) as Hp.
+  destruct (recover_pops tb (S f) (stack s) (la s) e) as [st' e'|e'| |]; try discriminate.
+  - intros H. inversion H; subst. split; cbn; [exact Hp|]. intros _. apply Hi.
   - destruct (la s =? EOF); [discriminate|].
     destruct (read_token tb s) as [s1|] eqn:E; [|discriminate].
-    apply IH. eapply read_token_inv; eauto. apply Hi.
-  - destruct (la s =? EOF); [discriminate|].
-    destruct (read_token tb s) as [s1|] eqn:E; [|discriminate].
-    apply IH. eapply read_token_inv; eauto. apply Hi.
+    apply IH; [exact Hp|]. eapply read_token_inv; eauto. apply Hi.
 Qed.
 
 Lemma recover_inv f s s' : Inv s -> recover tb f s = Continue s' -> Inv s'.
